@@ -245,6 +245,8 @@ def check(prog, run):
     run.rule("R1", "every fixed-layout box/record: derived byte layout == specification transcription (size, version/flags, reserved, constants, field positions, value sources)")
     run.rule("R2", "track IDs: non-zero, pairwise distinct, next_track_ID above all track IDs of the same configuration; fragmented tkhd/trex/tfhd IDs agree")
     run.rule("R3", "variable records: counted tables (count == number of entries emitted, fixed entry width), parameter-set arrays (length prefix of the very bytes that follow), descriptor lengths")
+    from . import c07
+    c07.hvcc_profile_bytes(prog, run, "R1")
     u = prog.lib
     it = L.Interp(u)
     for p in it.box_builders:
